@@ -119,6 +119,36 @@ const REL_FIELDS: &[&str] = &[
     "Replaces", "Provides", "Built-Using", "Installed-Build-Depends",
 ];
 
+fn mandatory_of(kind: &str) -> &'static [&'static str] {
+    match kind {
+        "apt-release" => &["Codename", "Components", "Architectures", "Description", "Origin", "Label", "Suite", "Version", "Date", "NotAutomatic", "ButAutomaticUpgrades", "Acquire-By-Hash"],
+        "apt-source" => &["Directory", "Version", "Package", "Package-List"],
+        "apt-package" => &["Package", "Version", "Architecture"],
+        "removal" => &["Date", "Ftpmaster", "Reason"],
+        "apt-sources" => &["Types", "URIs", "Suites", "Components", "Architectures"],
+        "buildinfo" => &["Format", "Build-Architecture", "Source", "Architecture", "Version"],
+        _ => &[],
+    }
+}
+
+/// Does the text still have the shape its field table gives it (roles present, mandatory fields there)?
+fn table_wellformed(kind: &str, text: &str) -> bool {
+    let paras = match crate::model::segmenter::segment(text) {
+        Some(s) => crate::model::segmenter::paragraphs(&s),
+        None => return false,
+    };
+    if paras.is_empty() {
+        return false;
+    }
+    let has = |p: &Vec<(String, String)>, f: &str| p.iter().any(|e| e.0 == f);
+    match kind {
+        "control" => paras.iter().filter(|p| has(p, "Source") && !has(p, "Package")).count() == 1 && paras.iter().all(|p| has(p, "Source") || has(p, "Package")),
+        "copyright" => has(&paras[0], "Format") && paras[1..].iter().all(|p| (has(p, "Files") && has(p, "License") && has(p, "Copyright")) || (!has(p, "Files") && has(p, "License"))),
+        "dep3" => true,
+        _ => paras.iter().all(|p| mandatory_of(kind).iter().all(|m| has(p, m))),
+    }
+}
+
 fn squash(s: &str) -> String {
     s.chars().filter(|c| !c.is_whitespace()).collect()
 }
@@ -325,6 +355,12 @@ impl Scenario for C20 {
                 // no value where the property says it carries one (roles by distinguishing fields, continuation lines ...)
                 if e.starts_with("parsing field ") && REL_FIELDS.iter().any(|f| e.starts_with(&format!("parsing field {f}:"))) {
                     obs.count(&format!("reach.wellformed_rejected_{}", kind.replace('-', "_")));
+                    return Ok(());
+                }
+                // only documents that still have the shape the field tables give them (a shrinking step may have
+                // removed a mandatory field: rejecting that is right)
+                if !table_wellformed(&kind, &c.text) {
+                    obs.count("reach.rejected_not_table_wellformed");
                     return Ok(());
                 }
                 return Err(v("wellformed-rejected", &kind, "wellformed", format!("document {:?} generated from the field table is rejected: {}", c.text, e.trim())));
